@@ -16,7 +16,7 @@ partial def dumpNode (s : St) : Node → String
     let body := match k with
       | .doc => s!"D[{kids}]"
       | .elem n => s!"E({encode n})[{String.join (as.map (dumpNode s))}][{kids}]"
-      | .attr n sp => s!"A({encode n},{if sp then 1 else 0})[{kids}]"
+      | .attr n sp => s!"A({encode (localName n)},{if sp then 1 else 0})[{kids}]"   -- the DOM names attributes by local part
       | .text => s!"T({encode d})"
       | .cdata => s!"S({encode d})"
       | .comment => s!"C({encode d})"
